@@ -311,6 +311,8 @@ def compare(rq, impl, model, ctx):
     n, M = parse_matrix(a)
     if op in ("c15.eigensystem", "c15.eigenvectors"):
         return compare_system(op, rq, n, M, impl, meta, ctx)
+    if op == "c15.spectrum":
+        return compare_spectrum(rq, n, M, impl, model, meta, ctx)
     fs, both = std_outcome(rq, impl, model)
     if tag(model) in ("ok", "err"):
         ctx["nontrivial"].add(_key(op, n, M, meta, model))
@@ -372,32 +374,64 @@ def compare(rq, impl, model, ctx):
             key = "maxerr_eps_kappa.qr"
             if worst > ctx["stats"].get(key, 0):
                 ctx["stats"][key] = round(worst, 3)
-    elif op == "c15.spectrum":
-        k = int(ti[0])
-        vals = [fl(t) for t in ti[1:1 + k]]
-        if not _finite(vals):
-            return fs + [fail("prop", "Eigenvalues: non-finite value", impl[:200])]
-        if meta and meta[0] == "eig":
-            lam = meta[2]
-        else:
-            lam = None
-        mk = int(tm[0])
-        mvals = [fr(t) for t in tm[1:1 + mk]]
-        if lam is None:
-            lam = mvals             # replay / fixed matrices: the model's converged iteration is the reference
-        for clause, det in _spectrum_check(vals, lam, M, "Eigenvalues"):
-            out.append(fail("prop", clause, det))
-        if not out:
-            lmax = max(abs(x) for x in lam)
-            if k != mk or any(abs(Fraction(x) - m) > K_EIG * EPS * lmax for x, m in zip(vals, mvals)):
-                out.append(fail("corr", "Eigenvalues: order or values differ from the model's QR iteration",
-                                "%s vs %s" % (vals, [float(m) for m in mvals])))
-            worst = max(float(abs(Fraction(x) - m) / (EPS * lmax)) for x, m in zip(vals, mvals)) if k == mk else 0
-            key = "maxerr_eps_lmax.eig"
-            if worst > ctx["stats"].get(key, 0):
-                ctx["stats"][key] = round(worst, 3)
-            bump(ctx, "eig.steps.%d0s" % (int(tm[-1]) // 10))
     return fs + out
+
+
+def compare_spectrum(rq, n, M, impl, model, meta, ctx):
+    """Eigenvalues.  Convergence is correspondence/oracle-only and sensitive to rounding for matrices with
+    invariant coordinate subspaces (the exact iteration stays near an unsorted fixed point that rounding
+    errors leave sooner or later), so the outcome tag and the order of the values are not compared
+    strictly: the implementation is judged by the spectrum oracle, the model's iteration is an extra
+    positional reference where it converged to the same order."""
+    out = []
+    lam = meta[2] if meta and meta[0] == "eig" else None
+    ti, tm = tag(impl), tag(model)
+    if tm in ("bad-op", "bad-args", "driver-no-answer") or ti in ("bad-op", "bad-args"):
+        return [fail("corr", "protocol", "impl=%s model=%s" % (ti, tm))]
+    if crashed(impl):
+        return [fail("prop", "Eigenvalues: crash/sanitizer/silent exit: " + ti, impl[:200])]
+    if tm in ("ok", "err"):
+        ctx["nontrivial"].add(_key("c15.spectrum", n, M, meta, model))
+    if ti == "err":
+        if lam is not None or tm == "ok":
+            return [fail("prop", "Eigenvalues: stopped with 'did not converge in 200 steps' on a symmetric matrix whose eigenvalues are separated in magnitude", "model: " + tm)]
+        return []
+    if ti != "ok":
+        return [fail("corr", "unknown harness tag " + ti, "")]
+    t = toks(impl)
+    k = int(t[0])
+    vals = [fl(x) for x in t[1:1 + k]]
+    if tm == "undef" and lam is None:
+        return []
+    if not _finite(vals):
+        return [fail("prop", "Eigenvalues: non-finite value", impl[:200])]
+    mvals = None
+    if tm == "ok":
+        mt = toks(model)
+        mvals = [fr(x) for x in mt[1:1 + int(mt[0])]]
+        bump(ctx, "eig.steps.%d0s" % (int(mt[-1]) // 10))
+    if lam is None:
+        lam = mvals                 # replay without generator metadata: the model's converged iteration is the reference
+    if lam is None:
+        return []
+    for clause, det in _spectrum_check(vals, lam, M, "Eigenvalues"):
+        out.append(fail("prop", clause, det))
+    if out:
+        return out
+    lmax = max(abs(x) for x in lam)
+    if mvals is None:
+        ctx["excused"] += 1
+        bump(ctx, "eig.model_noconv_impl_ok")
+    elif len(mvals) == k and all(abs(Fraction(x) - m) <= K_EIG * EPS * lmax for x, m in zip(vals, mvals)):
+        worst = max(float(abs(Fraction(x) - m) / (EPS * lmax)) for x, m in zip(vals, mvals))
+        if worst > ctx["stats"].get("maxerr_eps_lmax.eig", 0):
+            ctx["stats"]["maxerr_eps_lmax.eig"] = round(worst, 3)
+    elif len(mvals) == k and all(abs(a - b) <= K_EIG * EPS * lmax for a, b in zip(sorted(Fraction(x) for x in vals), sorted(mvals))):
+        ctx["excused"] += 1
+        bump(ctx, "eig.order_differs_from_model")
+    else:
+        out.append(fail("corr", "Eigenvalues: values differ from the model's QR iteration", "%s vs %s" % (vals, [float(m) for m in mvals])))
+    return out
 
 
 def compare_system(op, rq, n, M, impl, meta, ctx):
